@@ -747,36 +747,81 @@ def thread_variant_switches(m):
     return n
 
 
+def _uses_of_local(m, l):
+    n = 0
+    txt_ops = []
+    for B in m["blocks"]:
+        for st in B["s"]:
+            r = st.get("r", {})
+            for a in [r.get("a"), r.get("b")] + list(r.get("ops", [])):
+                if isinstance(a, dict) and a.get("k") in ("copy", "move") and (a["p"] == l or (isinstance(a["p"], dict) and a["p"].get("l") == l)):
+                    n += 1
+            if r.get("k") in ("ref", "rawptr", "discr") and (r.get("p") == l or (isinstance(r.get("p"), dict) and r["p"].get("l") == l)):
+                n += 1
+        t = B["t"]
+        for a in [t.get("d"), t.get("c")] + list(t.get("args", []) or []) + list(t.get("ops", []) or []):
+            if isinstance(a, dict) and a.get("k") in ("copy", "move") and (a["p"] == l or (isinstance(a["p"], dict) and a["p"].get("l") == l)):
+                n += 1
+    return n
+
+
 def thread_const_switches(m):
-    """jump threading of materialised booleans: a statement-free block `switch X` whose predecessor ends
-    `X = const v; goto B` is bypassed from that predecessor (`matches!(..)` + `if`, `let ok = a < b; if ok`, drop
-    flags).  Control flow only; no value changes.  A bypassed block that loses all predecessors becomes unreachable."""
+    """jump threading of materialised booleans: a block `switch X` (statement-free, or preceded only by `T = copy X` with T used
+    by nothing but the switch) that is reached from a block ending `X = const v; goto ..` - directly or through a short chain of
+    statement-free `drop`/`goto` blocks (scope ends between a combinator's result and the `if` that tests it) - is bypassed from
+    that block; the chain is cloned for the bypassing path, so every drop still happens.  (`matches!(..)` + `if`, `let ok = a < b;
+    if ok`, `let all = it.all(..); if all`.)  Control flow only; no value changes.  A bypassed block that loses all
+    predecessors becomes unreachable."""
     blocks = m["blocks"]
     n = 0
-    for bi, B in enumerate(blocks):
+
+    def succs(B):
+        pt = B["t"]
+        if pt["k"] == "goto":
+            return [pt["t"]]
+        if pt["k"] == "switch":
+            return [b for _, b in pt["ts"]] + [pt["else"]]
+        if pt["k"] in ("call", "drop", "assert", "tailcall"):
+            return [pt.get("t")]
+        return []
+    for bi in range(len(blocks)):
+        B = blocks[bi]
         t = B["t"]
-        if B["s"] or t["k"] != "switch" or bi == 0:
+        if t["k"] != "switch" or bi == 0 or B.get("c"):
             continue
         x = _local_of(t["d"])
         if x is None:
             continue
-        preds = []
-        for pi, P in enumerate(blocks):
-            pt = P["t"]
-            tg = []
-            if pt["k"] == "goto":
-                tg = [pt["t"]]
-            elif pt["k"] == "switch":
-                tg = [b for _, b in pt["ts"]] + [pt["else"]]
-            elif pt["k"] in ("call", "drop", "assert", "tailcall"):
-                tg = [pt.get("t")]
-            if bi in tg:
-                preds.append(pi)
-        left = 0
-        for pi in preds:
-            P = blocks[pi]
-            v = None
-            if P["t"]["k"] == "goto" and pi != bi:
+        if B["s"]:
+            # only `T = copy X; switch T`
+            if len(B["s"]) != 1:
+                continue
+            st = B["s"][0]
+            a = st.get("r", {}).get("a", {})
+            if not (st.get("k") == "assign" and st.get("p") == x and st["r"].get("k") == "use" and a.get("k") in ("copy", "move") and isinstance(a.get("p"), int)):
+                continue
+            if _uses_of_local(m, x) != 1:
+                continue
+            x = a["p"]
+        # chains leading into B: lists of pass-through blocks [C1, .., Ck] with Ck -> B
+        def chains_into(target, depth):
+            out = [[]]
+            if depth >= 4:
+                return out
+            for ci, C in enumerate(blocks):
+                if ci == target or C.get("c") or C["s"] or C["t"]["k"] not in ("goto", "drop") or C["t"].get("t") != target:
+                    continue
+                for ch in chains_into(ci, depth + 1):
+                    out.append(ch + [ci])
+            return out
+        all_direct_preds = [pi for pi, P in enumerate(blocks) if bi in succs(P)]
+        threaded_from = set()
+        for chain in chains_into(bi, 0):
+            entry = chain[0] if chain else bi
+            for pi, P in enumerate(blocks):
+                if pi == bi or pi in chain or P.get("c") or P["t"]["k"] != "goto" or P["t"]["t"] != entry:
+                    continue
+                v = None
                 for st in reversed(P["s"]):
                     if st.get("k") == "assign" and st.get("p") == x:
                         a = st.get("r", {}).get("a", {})
@@ -785,12 +830,18 @@ def thread_const_switches(m):
                         break
                     if st.get("k") == "assign" and isinstance(st.get("p"), dict) and st["p"].get("l") == x:
                         break
-            if v is None:
-                left += 1
-                continue
-            tgt = next((b for val, b in t["ts"] if val == v), t["else"])
-            P["t"] = dict(P["t"], t=tgt)
-            n += 1
-        if preds and left == 0:
+                if v is None:
+                    continue
+                tgt = next((b for val, b in t["ts"] if val == v), t["else"])
+                # clone the chain for this path
+                nxt = tgt
+                for ci in reversed(chain):
+                    C = blocks[ci]
+                    blocks.append({"s": [], "t": dict(C["t"], t=nxt), "c": False})
+                    nxt = len(blocks) - 1
+                P["t"] = dict(P["t"], t=nxt)
+                threaded_from.add(pi)
+                n += 1
+        if all_direct_preds and not B["s"] and all(pi in threaded_from for pi in all_direct_preds):
             B["t"] = {"k": "unreachable", "ln": t.get("ln", LN)}
     return n
